@@ -24,6 +24,15 @@ STD_HEADERS = {
 PRELUDE_STD = ["algorithm", "array", "cmath", "complex", "cstdint", "cstdio", "cstdlib", "cstring", "deque", "functional", "iostream", "iterator",
                "limits", "list", "map", "memory", "numeric", "set", "sstream", "stdexcept", "string", "tuple", "utility", "vector", "math.h"]
 
+# every header of the C and C++ standard libraries: when a rendered file includes one of them, the batch translation unit includes
+# it BEFORE the first namespace, so that the #include line inside the spliced text is a no-op under its guard
+ALL_STD = set("""algorithm any array atomic bitset cassert ccomplex cctype cerrno cfenv cfloat charconv chrono cinttypes ciso646 climits clocale cmath codecvt complex
+condition_variable csetjmp csignal cstdarg cstddef cstdint cstdio cstdlib cstring ctgmath ctime cuchar cwchar cwctype deque exception execution filesystem forward_list fstream
+functional future initializer_list iomanip ios iosfwd iostream istream iterator limits list locale map memory memory_resource mutex new numeric optional ostream queue random ratio
+regex scoped_allocator set shared_mutex sstream stack stdexcept streambuf string string_view system_error thread tuple type_traits typeindex typeinfo unordered_map unordered_set
+utility valarray variant vector assert.h complex.h ctype.h errno.h fenv.h float.h inttypes.h limits.h locale.h math.h setjmp.h signal.h stdarg.h stddef.h stdint.h stdio.h
+stdlib.h string.h time.h wchar.h wctype.h unistd.h""".split())
+
 CXX = os.environ.get("VERIF_CXX", "g++")
 BASE_FLAGS = ["-std=c++17", "-O0", "-w", "-ftrivial-auto-var-init=pattern", "-fmax-errors=0"]
 
@@ -41,7 +50,7 @@ def class_name(backend: str) -> str:
 def _ensure_stubs(stub_dir: Path, text: str, backend: str):
     for m in _inc_re.finditer(text):
         h = m.group(2).strip()
-        if h in STD_HEADERS or h.startswith("q") and h.endswith("_query.h"):
+        if h in STD_HEADERS or h in ALL_STD or h.startswith("q") and h.endswith("_query.h"):
             continue
         if h == "analysis/query.h":
             continue
@@ -121,6 +130,11 @@ def write_batch(workdir: Path, programs: List[Program], backend: str) -> Path:
     stub.mkdir(parents=True, exist_ok=True)
     parts = [f'#include "{model_header(backend)}"']
     parts += [f"#include <{h}>" for h in PRELUDE_STD]
+    used_std = set()
+    for pr in programs:
+        for t in pr.files.values():
+            used_std |= {m.group(2).strip() for m in _inc_re.finditer(t)} & ALL_STD
+    parts += [f"#include <{h}>" for h in sorted(used_std - set(PRELUDE_STD))]
     for pr in programs:
         n = pr.idx
         if backend == "atlas":
